@@ -153,6 +153,15 @@ CHECKS = {
         "Only Exception subclasses are injected; the RST-after-accept layer uses real sockets and treats timing failures as inconclusive.",
         "DESIGN.md section 3 C17",
     ),
+    "C13": (
+        "exploration",
+        "model-based property testing: generated cancel-scope programs run on a virtual-time loop against an independent reference interpreter (exact comparison where the semantics are schedule-independent, invariants everywhere)",
+        "Programs over sleep/checkpoint/failing waits/5 scope constructors/shield/scope.cancel()/reschedule()/task-group children plus an external task.cancel() at a generated virtual time; "
+        "invariants (no unshielded checkpoint completes in a cancelled or expired scope, shields run to completion, a foreign cancel is always delivered, no leftover cancellation request, TimeoutError iff cancelled_caught) "
+        "on every program, and marks/outcome/scope flags compared exactly with the reference interpreter on tie-free programs.",
+        "Reference interpreter (pbt/scope_model.py) is trusted; ties inside one virtual instant are detected and only the invariants are judged there; one known finding (D5) is excluded by shape, counted, and reported as KNOWN-FINDING from its replays; asyncio backend only.",
+        "DESIGN.md section 3 C13",
+    ),
     "C18": (
         "exploration",
         "property-based history generation with interval-order oracles: lifecycle call histories with tick-exact offsets on a virtual loop (async servers) and randomized real-thread histories (standalone servers)",
